@@ -96,3 +96,59 @@ Proof.
   apply interleave_serial; [|exact Htr].
   eapply c16_footprints_disjoint. exact H.
 Qed.
+
+(* ---------------- C20: what a passing SERIAL correspondence case says ---------------- *)
+
+Lemma zz_eqb_eq : forall a b : Z * Z, zz_eqb a b = true -> a = b.
+Proof.
+  intros [a1 a2] [b1 b2] H. unfold zz_eqb in H. cbn [fst snd] in H.
+  apply andb_true_iff in H. destruct H as [H1 H2].
+  apply Z.eqb_eq in H1. apply Z.eqb_eq in H2. subst. reflexivity.
+Qed.
+
+Lemma list_eqb_zz_eq : forall a b : list (Z * Z), list_eqb zz_eqb a b = true -> a = b.
+Proof.
+  induction a as [|x a IH]; intros [|y b] H; cbn [list_eqb] in H; try discriminate.
+  - reflexivity.
+  - apply andb_true_iff in H. destruct H as [H1 H2].
+    apply zz_eqb_eq in H1. apply IH in H2. subst. reflexivity.
+Qed.
+
+Lemma nsub_dummy_cube : forall k costs nfills resets, nsub (dummy_cube k costs nfills resets) = k.
+Proof. intros. unfold nsub, dummy_cube. cbn [c_tasks]. rewrite map_length, seq_length. reflexivity. Qed.
+
+(* A serial case (p = 0) on which [c20_check] evaluates to true is an observation that satisfies the
+   property text literally: with i the least invocation index at which the harness' callback raised,
+   the exception object that came out of calculate is the one raised there, after exactly i+1
+   consultations of sub-cubes 0..i in order; if none raised, calculate returned after consulting every
+   sub-cube exactly once, in order; and both result flags (returned result = fresh evaluation,
+   follow-up call on the same objects = fresh evaluation) were observed true. *)
+Theorem c20_serial_case_sound : forall k T N log obs costs nfills resets d0 d1 flags,
+  c20_check (0%Z, k, (T, N), log, obs, (costs, nfills, resets), (d0, d1), flags) = true ->
+  flags = true /\
+  match find_first (fun i => oracle T N i i) (Z.to_nat k) with
+  | Some i => obs = Some (Z.of_nat i, Z.of_nat i) /\ log = map nn_to_zz (diag_log (S i))
+  | None => obs = None /\ log = map nn_to_zz (diag_log (Z.to_nat k))
+  end.
+Proof.
+  intros k T N log obs costs nfills resets d0 d1 flags H.
+  unfold c20_check, c20_model in H. cbn [Z.eqb] in H.
+  set (cu := dummy_cube (Z.to_nat k) costs nfills resets) in *.
+  pose proof (serial_outcome_from Z (list Z) cu (oracle T N) (c_init cu) (diag_of d0)) as S.
+  cbn zeta in S. fold (calculate_serial cu (oracle T N) (diag_of d0)) in S.
+  unfold cu in S at 1. rewrite nsub_dummy_cube in S. fold cu in S.
+  apply andb_true_iff in H. destruct H as [H Hd].
+  apply andb_true_iff in H. destruct H as [H _].
+  apply andb_true_iff in H. destruct H as [H Ho].
+  apply andb_true_iff in H. destruct H as [Hf Hl].
+  split; [exact Hf|].
+  apply list_eqb_zz_eq in Hl.
+  unfold ConcProofs.rs in S.
+  destruct (find_first (fun i : nat => oracle T N i i) (Z.to_nat k)) as [i|].
+  - destruct S as [S1 [S2 _]]. rewrite S1 in Ho. rewrite S2 in Hl. split; [|symmetry; exact Hl].
+    unfold out_eqb in Ho. destruct obs as [e|]; [|discriminate].
+    apply zz_eqb_eq in Ho. rewrite <- Ho. reflexivity.
+  - destruct S as [S1 [S2 _]]. rewrite S1 in Ho. rewrite S2 in Hl. unfold cu in Hl. rewrite nsub_dummy_cube in Hl.
+    split; [|symmetry; exact Hl].
+    unfold out_eqb in Ho. destruct obs; [discriminate|reflexivity].
+Qed.
